@@ -6,6 +6,8 @@ import Driver.OpsRewrite
 import Driver.OpsTopDown
 import Driver.OpsAlgebra
 import Driver.OpsTensor
+import Driver.OpsLearn
+import Driver.OpsSched
 /-
 Line-protocol driver: one JSON object per input line, one answer line per input line.
 Run with `lake env lean --run Driver/Main.lean < ops.jsonl`.
@@ -70,7 +72,9 @@ def handle (st : St) (j : Json) : Except String (St × String) := do
       handleRewrite st.net st.root o j,
       handleTopDownD st.net st.root st.dom o j,
       handleAlgebra o j,
-      handleTensor o j ]
+      handleTensor o j,
+      handleLearn o j,
+      handleSched st.net st.root o j ]
     match exts.findSome? id with
     | some r => do let a ← r; pure (st, a)
     | none => .error s!"unknown op {o}"
